@@ -12,7 +12,13 @@ PARTIAL = [
     "(decode_utf16 + push loop) and proved to hold the characters for well-formed input and to be valid UTF-8 for every input",
     "growable strings are assumed to get their memory (allocation failure / capacity overflow is C07's subject); the capacity of BumpString "
     "is modelled exactly (generic_grow_amortized / generic_grow_exact), that of MutBumpString up to the arena's grant (an input of the model, "
-    "taken from the observation); shrink_to_fit / shrink_to are not modelled",
+    "taken from the observation); shrink_to / shrink_to_fit are modelled with the arena's answer (shrunk or not) as an input taken from the observation",
+    "stale-pointer / clobbering oracles (re-reading the string after a FURTHER allocation from the same arena, after shrink_to(_fit), split_off, "
+    "every consuming conversion and at random; probe allocations and kept split-off strings must stay intact) are direct oracles on the "
+    "implementation only: the byte model has no addresses",
+    "extend_zeroed, write_str/write_char, Extend<char|&char|&str>, +=, shrink_to(_fit) and the consuming conversions (into_str, into_boxed_str, "
+    "into_fixed_string, into_bytes, FixedBumpString::into_string) are modelled and have per-operation theorems, but are not constructors of the "
+    "history type `Str.Op` (run_valid / run_refines quantify over the other 15 operations); the PanicsOnAlloc wrapper is not exercised",
     "char::encode_utf8 / str::chars / is_char_boundary are core primitives: the model uses Lean core's String.utf8EncodeChar and a hand-written "
     "decoder proved inverse to it; the tie to rustc's primitives is the correspondence run (every op line carries the resulting bytes)",
     "finding C09-a (split_off with an empty range inside a character returns \"\" instead of panicking) is carved out of the `panics iff` theorem "
@@ -23,8 +29,8 @@ PARTIAL = [
 def run(ctx):
     q = ctx.quick()
     ctx.extra["rule"] = ("operation sequences (push, push_str, insert, insert_str, remove, pop, truncate, clear, retain with a panicking/"
-                         "dropping predicate, drain, replace_range, extend_from_within, split_off, reserve, reserve_exact, into_cstr; constructors from_str_in / with_capacity_in+push_str, from_utf8, from_utf16(_lossy)) on BumpBox<str>, FixedBumpString, "
-                         "BumpString and MutBumpString (both bump directions) next to std::string::String; texts mix 1-4 byte characters incl. NUL, "
+                         "dropping predicate, drain, replace_range, extend_from_within, split_off, reserve, reserve_exact, extend_zeroed, write_str, write_char, Extend<char>/<&char>/<&str>, +=, shrink_to, shrink_to_fit, into_cstr / into_str / into_boxed_str / into_fixed_string / into_bytes / into_string, try_ and panicking twins, each followed by further allocations from the same arena; constructors from_str_in / with_capacity_in+push_str, from_utf8, from_utf16(_lossy)) on BumpBox<str>, FixedBumpString, "
+                         "BumpString and MutBumpString (arenas: up/MIN_ALIGN 1, down/1, down/8, up/16) next to std::string::String; texts mix 1-4 byte characters incl. NUL, "
                          "U+0080/U+07FF/U+0800/U+D7FF/U+E000/U+FFFF/U+10000/U+10FFFF; indices: boundaries, inside characters, len, len+1.., "
                          "usize::MAX; all bound forms; sweeps: EVERY byte index / index pair of a text on a fresh string of every kind; "
                          "distinct_nontrivial counts distinct op lines")
